@@ -50,6 +50,8 @@ type F0 = Frame<&'static ThreadLocalCtxt>;
 
 trait GuardObj: Send {
     fn start_it(&mut self);
+    /// Complete the span inside its frame: by drop, `complete()`, or `complete_with(..)`.
+    fn finish(self: Box<Self>, how: u64, m: &'static M04);
 }
 
 impl<'a, T: emit::Clock + Send, P: emit::Props + Send, C: emit::span::completion::Completion + Send> GuardObj
@@ -57,6 +59,33 @@ impl<'a, T: emit::Clock + Send, P: emit::Props + Send, C: emit::span::completion
 {
     fn start_it(&mut self) {
         self.start()
+    }
+    fn finish(self: Box<Self>, how: u64, m: &'static M04) {
+        match how % 3 {
+            0 => drop(self),
+            1 => {
+                (*self).complete();
+            }
+            _ => {
+                (*self).complete_with(emit::span::completion::default(m.rt.emitter(), m.rt.ctxt()));
+            }
+        }
+    }
+}
+
+/// The error of the Result-returning fixtures; it carries the interpreter's state out.
+#[derive(Debug)]
+struct LeaveErr(Leave);
+impl std::fmt::Display for LeaveErr {
+    fn fmt(&self, f: &mut std::fmt::Formatter) -> std::fmt::Result {
+        f.write_str("scripted error result")
+    }
+}
+impl std::error::Error for LeaveErr {}
+
+fn either(r: Result<Leave, LeaveErr>) -> Leave {
+    match r {
+        Ok(l) | Err(LeaveErr(l)) => l,
     }
 }
 
@@ -100,10 +129,42 @@ fn form_sync_guard(m: &'static M04) -> Leave {
     l
 }
 
-#[emit::span(rt: m.rt, ok_lvl: emit::Level::Debug, "sync fn span with result")]
-fn form_sync_result(m: &'static M04) -> Result<Leave, std::io::Error> {
+// completion through `complete_with` (the expansion of ok_lvl / err_lvl), Ok and Err results
+#[emit::span(rt: m.rt, ok_lvl: emit::Level::Debug, "sync fn span with Ok result")]
+fn form_sync_result_ok(m: &'static M04) -> Result<Leave, LeaveErr> {
     reply_ok();
     Ok(run_loop(m))
+}
+
+#[emit::span(rt: m.rt, err_lvl: emit::Level::Warn, "sync fn span with Err result")]
+fn form_sync_result_err(m: &'static M04) -> Result<Leave, LeaveErr> {
+    reply_ok();
+    Err(LeaveErr(run_loop(m)))
+}
+
+#[emit::span(rt: m.rt, guard: span, "sync fn span with guard and complete_with")]
+fn form_sync_guard_with(m: &'static M04) -> Leave {
+    reply_ok();
+    let l = run_loop(m);
+    span.complete_with(emit::span::completion::default(m.rt.emitter(), m.rt.ctxt()));
+    l
+}
+
+#[emit::span(rt: m.rt, ok_lvl: emit::Level::Info, "async fn span with Ok result")]
+async fn form_async_result_ok(m: &'static M04) -> Result<Leave, LeaveErr> {
+    Ok(ScriptFuture { m }.await)
+}
+
+#[emit::span(rt: m.rt, err_lvl: emit::Level::Error, "async fn span with Err result")]
+async fn form_async_result_err(m: &'static M04) -> Result<Leave, LeaveErr> {
+    Err(LeaveErr(ScriptFuture { m }.await))
+}
+
+#[emit::span(rt: m.rt, guard: span, "async fn span with guard and complete_with")]
+async fn form_async_guard_with(m: &'static M04) -> Leave {
+    let l = ScriptFuture { m }.await;
+    span.complete_with(emit::span::completion::default(m.rt.emitter(), m.rt.ctxt()));
+    l
 }
 
 fn form_new_span_call(m: &'static M04) -> Leave {
@@ -206,13 +267,15 @@ impl Machine for M04 {
             "begin" => {
                 self.set_verdict(step);
                 let i = step["i"].as_u64().unwrap();
-                let leave = match (salt + i) % 6 {
+                let leave = match (salt + i) % 8 {
                     0 => form_sync_fn(self),
                     1 => form_new_span_call(self),
                     2 => form_sync_guard(self),
                     3 => form_manual_enter(self),
                     4 => form_sync_lvl(self),
-                    _ => form_sync_result(self).unwrap(),
+                    5 => either(form_sync_result_ok(self)),
+                    6 => either(form_sync_result_err(self)),
+                    _ => form_sync_guard_with(self),
                 };
                 self.after_nested(leave)
             }
@@ -233,16 +296,26 @@ impl Machine for M04 {
             }
             "incoming" => {
                 let f = step["f"].as_u64().unwrap();
-                let tr = incoming_trace(step["ids"][0].as_u64().unwrap());
-                let sp = incoming_span(step["ids"][1].as_u64().unwrap());
+                // either id may be absent (0): a trace id alone, a span id alone
+                let tr = Some(step["ids"][0].as_u64().unwrap()).filter(|n| *n != 0).map(incoming_trace);
+                let sp = Some(step["ids"][1].as_u64().unwrap()).filter(|n| *n != 0).map(incoming_span);
                 let frame = match (salt + f) % 4 {
-                    0 => Frame::push(self.rt.ctxt(), [("trace_id", emit::Value::from_any(&tr)), ("span_id", emit::Value::from_any(&sp))]),
+                    0 => Frame::push(
+                        self.rt.ctxt(),
+                        [
+                            tr.as_ref().map(|t| ("trace_id", emit::Value::from_any(t))),
+                            sp.as_ref().map(|s| ("span_id", emit::Value::from_any(s))),
+                        ],
+                    ),
                     1 => {
-                        let (t, s) = (tr.to_string(), sp.to_string());
-                        Frame::push(self.rt.ctxt(), [("trace_id", &*t), ("span_id", &*s)])
+                        let (t, s) = (tr.map(|t| t.to_string()), sp.map(|s| s.to_string()));
+                        Frame::push(self.rt.ctxt(), [t.as_deref().map(|t| ("trace_id", t)), s.as_deref().map(|s| ("span_id", s))])
                     }
-                    2 => Frame::push(self.rt.ctxt(), ("trace_id", tr.to_u128()).and_props(("span_id", sp.to_u64()))),
-                    _ => SpanCtxt::new(Some(tr), None, Some(sp)).push(self.rt.ctxt()),
+                    2 => Frame::push(
+                        self.rt.ctxt(),
+                        tr.map(|t| ("trace_id", t.to_u128())).and_props(sp.map(|s| ("span_id", s.to_u64()))),
+                    ),
+                    _ => SpanCtxt::new(tr, None, sp).push(self.rt.ctxt()),
                 };
                 self.frames.lock().unwrap().insert(f, SFrame::Plain(frame));
                 reply_ok();
@@ -269,19 +342,21 @@ impl Machine for M04 {
                         self.after_nested(l)
                     }
                     SFrame::Span(mut frame, mut guard) => {
+                        let how = salt / 2 + f;
                         let leave = if (salt + f) % 2 == 0 {
                             frame.call(move || {
                                 guard.start_it();
                                 reply_ok();
-                                run_loop(self)
-                                // the guard is dropped here, inside the frame
+                                let l = run_loop(self);
+                                guard.finish(how, self);        // inside the frame
+                                l
                             })
                         } else {
                             let _g = frame.enter();
                             guard.start_it();
                             reply_ok();
                             let l = run_loop(self);
-                            drop(guard);
+                            guard.finish(how, self);
                             l
                         };
                         self.after_nested(leave)
@@ -297,7 +372,7 @@ impl Machine for M04 {
                     SFrame::Span(frame, mut guard) => Box::pin(frame.in_future(async move {
                         guard.start_it();
                         let l = ScriptFuture { m }.await;
-                        drop(guard);
+                        guard.finish(salt / 2 + f, m);
                         l
                     })),
                 };
@@ -307,7 +382,13 @@ impl Machine for M04 {
             }
             "lazy" => {
                 let k = step["k"].as_u64().unwrap();
-                let task: Task = if (salt + k) % 2 == 0 { Box::pin(form_async_fn(self)) } else { Box::pin(form_async_guard(self)) };
+                let task: Task = match (salt + k) % 5 {
+                    0 => Box::pin(form_async_fn(self)),
+                    1 => Box::pin(form_async_guard(self)),
+                    2 => Box::pin(async move { either(form_async_result_ok(self).await) }),
+                    3 => Box::pin(async move { either(form_async_result_err(self).await) }),
+                    _ => Box::pin(form_async_guard_with(self)),
+                };
                 self.tasks.lock().unwrap().insert(k, task);
                 reply_ok();
                 None
@@ -384,8 +465,8 @@ fn main() {
                 }
                 if step["op"] == "incoming" {
                     // the incoming ids are chosen by the environment: bind their names first
-                    let tr = Some(format!("t:{}", incoming_trace(step["ids"][0].as_u64().unwrap())));
-                    let sp = Some(format!("s:{}", incoming_span(step["ids"][1].as_u64().unwrap())));
+                    let tr = Some(step["ids"][0].as_u64().unwrap()).filter(|n| *n != 0).map(|n| format!("t:{}", incoming_trace(n)));
+                    let sp = Some(step["ids"][1].as_u64().unwrap()).filter(|n| *n != 0).map(|n| format!("s:{}", incoming_span(n)));
                     if !unify_ids(bij, &json!([step["ids"][0], step["ids"][1], 0]), &tr, &sp, &None) {
                         tool_error("incoming ids collide with drawn ids");
                     }
